@@ -175,9 +175,6 @@ func (w *world) checkCounters() {
 		if len(st.Uploads) > 250 {
 			w.viol("upload-queue-unbounded", fmt.Sprintf("%d requests queued for %s", len(st.Uploads), name))
 		}
-		if !st.AmUnchoking && len(st.Uploads) > 0 {
-			w.viol("queue-while-choked", fmt.Sprintf("%d requests remain queued for %s which we are choking", len(st.Uploads), name))
-		}
 	}
 	if got := peer.NumUnchoking() - w.base; got != n {
 		w.viol("unchoke-counter", fmt.Sprintf("the unchoke counter accounts for %d peers, %d are actually unchoked", got, n))
